@@ -386,9 +386,26 @@ def run_window(ctx, FST, src, label, rnd, n_targets):
         ctx.sample({'window': label, 'src': short(src, 120), 'targets_tried': min(n_targets, len(targets))})
 
 
+TABLE_PROGRAMS = [   # small containers with multi-byte text, trailing separators, separators on their own / continuation lines: every node and many slices of each
+    "x = (a, 'éé',)\ny = (é,)\nz = ('日本', ü, ñ,)\n", 'ä = ö = ü = c\né = a = (ü) = d\n', "f('é', b,)\ng(é, *ü, ñ=ä, **ö,)\n", '[é, ü,]\n{é, ü,}\n{é: ü, ñ: ä,}\n',
+    'del ä, ö\nimport ä, ö\nfrom m import (ä as ö, ü,)\nglobal ü, ñ\n', 'with ä as ö, ü: pass\nwith (ä as ö, ü,): pass\n', 'class C(ä, ö,): pass\ndef f(ä, ö=1, *ü, ñ, **é,): pass\n',
+    'match v:\n case [é, ü,]: pass\n case {"é": ü, **ñ}: pass\n case C(é, ü=ñ,): pass\n case é | ü | ñ: pass\n', 'r = é < ü <= ñ != ä\ns = é and ü and ñ\nt = é or ü\n',
+    'x = [é,  # cé\n     ü,  # cü\n     ñ,\n     ]\n', 'x = (é\n     , ü\n     , ñ)\n', 'f(é, \\\n  ü, \\\n  ñ)\n', 'try: pass\nexcept é: pass\nexcept (ü, ñ) as ä: pass\nfinally: pass\n',
+    '@é\n@ü(ñ)\ndef f[Ť, *Ťs, **Ṕ](): pass\n', 'v = [é for é in ü if ñ if ä for ö in é]\nw = {é: ü for é, ü in ñ}\n', 'a = 1; é = "ü"; b = 2  # c\nif é: ü; ñ\n', 'x = é if ü else ñ\ny = lambda é, ü=ñ: ä\nz = é[ü:ñ, ä]\n',
+]
+
+
 def run(ctx):
     from fst import FST
     from .. import corpus
+    import random as _random
+    for pi, prog in enumerate(TABLE_PROGRAMS):
+        if ctx.mine(pi):
+            for rep in range(6 if ctx.tier == 'quick' else 30):
+                if ctx.out_of_time():
+                    break
+                run_window(ctx, FST, prog, f'TABLE[{pi}]', _random.Random(rep * 1009 + pi), 10 ** 6)
+                ctx.count('table_program_passes')
     while not ctx.out_of_time():
         r = ctx.rnd.random()
         if r < 0.25:
